@@ -119,7 +119,11 @@ func nearMisses(valid driver.ReqCase, base string, newID func() string) []driver
 	// the client goes away: writes fail / the context is cancelled (generated code reports through LogError)
 	add(func(rc *driver.ReqCase) { rc.FailWrites = true; rc.Script.Random = true; rc.Script.Seed = 7 })
 	add(func(rc *driver.ReqCase) { rc.Cancelled = true })
-	add(func(rc *driver.ReqCase) { rc.FailWrites, rc.Cancelled = true, true; rc.Script.Random = true; rc.Script.Seed = 11 })
+	add(func(rc *driver.ReqCase) {
+		rc.FailWrites, rc.Cancelled = true, true
+		rc.Script.Random = true
+		rc.Script.Seed = 11
+	})
 	return out
 }
 
